@@ -128,4 +128,13 @@ MUTANTS = [
     M("c01.5-nolocked", "C01", "C01.5", XBF, "bank_selected  = [(ba == nb) & ~locked for ba, locked in zip(m_ba, master_locked)]", "bank_selected  = [(ba == nb) for ba, locked in zip(m_ba, master_locked)]"),
     M("c01.5-skip-bank", "C01", "C01.5", XBF, "if other_nb != nb:", "if other_nb > nb:"),
     M("c01.5-ready-nogrant", "C01", "C01.5", XBF, "master_ready | ((arbiter.grant == nm) & bank_selected[nm] & bank.ready)", "master_ready | (bank_selected[nm] & bank.ready)"),
+    # ---- C05 ----
+    M("c05.2-no-timeout", "C05", "C05.2", MXF, 'If(~read_available | max_read_time,\n                    NextState("RTW")', 'If(~read_available,\n                    NextState("RTW")'),
+    M("c05.2-bound", "C05", "C05.2", MXF, "t = timeout - 1\n", "t = 2*timeout - 1\n"),
+    M("c05.2-en-cond", "C05", "C05.2", MXF, "            write_time_en.eq(1),", "            write_time_en.eq(write_available),"),
+    B("c05.2-twin-demorgan", "C05", MXF, "If(~read_available | max_read_time,", "If(~(read_available & ~max_read_time),"),
+    M("c05.3-chooser-ce", "C05", "C05.3", MXF, "self.comb += arbiter.ce.eq(cmd.ready | ~cmd.valid)", "self.comb += arbiter.ce.eq(cmd.ready)"),
+    M("c05.3-policy", "C05", "C05.3", MXF, "arbiter = RoundRobin(n, SP_CE)", "arbiter = RoundRobin(n, SP_WITHDRAW)"),
+    M("c05.4-lock-extra", "C05", "C05.4", BMF, " | (cmd_buffer_lookahead.level != 0)),", " | (cmd_buffer_lookahead.level != 0) | row_opened),"),
+    M("c05.1-dead-end", "C05", "C05.1", MXF, '        fsm.act("WTR",\n            If(twtrcon.ready,\n                NextState("READ")\n            )\n        )', '        fsm.act("WTR",\n            If(twtrcon.ready,\n                choose_req.want_reads.eq(1)\n            )\n        )'),
 ]
